@@ -652,10 +652,18 @@ func (t *Tree) argumentConcatenate(ctx string) string {
 	case itemSemiColon:
 		return s
 	case itemPlus:
+		// One level of recursion per piece: bound it like the nesting of
+		// statements, a text of a few megabytes of "+''" must not
+		// exhaust the stack.
+		t.depth++
+		if t.depth > maxNesting {
+			t.errorf("argument concatenated from more than %d strings", maxNesting)
+		}
 		i = t.nextNonSpace()
 		// must be followed by [sep] quote
 		t.expect(itemQuote, ctx)
 		s = t.argumentQuoted(ctx)
+		t.depth--
 	default:
 		t.unexpected(i, ctx)
 	}
